@@ -9,6 +9,7 @@ package main
 
 import (
 	"math"
+	"strings"
 
 	"github.com/prometheus/prometheus/model/labels"
 	"github.com/prometheus/prometheus/promql/parser"
@@ -22,6 +23,7 @@ const (
 	fOffAgg      = "C18-range-query-aggregation-over-offset"
 	fStepGtRange = "C18-range-function-step-greater-than-range"
 	fByName      = "C18-by-name-label-dropped"
+	fResetsZero  = "C18-resets-empty-window-zero"
 )
 
 type explain struct {
@@ -321,6 +323,10 @@ func explainWith(ds *dataset, e *exprCase, mode string, start, lastStep, step in
 		up = stripName(up)
 		ex.Rules = addRule(ex.Rules, fByName)
 	}
+	if strings.Contains(e.Expr, "resets(") && cmpResults(up, sv) != "" && extraZeros(up, sv) {
+		ex.Rules = addRule(ex.Rules, fResetsZero)
+		return true, ex, nregex
+	}
 	if mode == "range" && hasMatrixSelector(e.Expr) && cmpResults(up, sv) != "" && trailingLoss(up, sv) {
 		ex.Rules = addRule(ex.Rules, fStepGtRange)
 		return true, ex, nregex
@@ -332,6 +338,42 @@ func explainWith(ds *dataset, e *exprCase, mode string, start, lastStep, step in
 		return true, ex, nregex
 	}
 	return false, ex, nregex
+}
+
+// extraZeros: the server's answer is upstream's answer plus additional points of value 0
+func extraZeros(up, sv result) bool {
+	if up.Kind != sv.Kind {
+		return false
+	}
+	um := map[string]map[int64]float64{}
+	for _, s := range up.Series {
+		m := map[int64]float64{}
+		for _, p := range s.Pts {
+			m[p.T] = p.V
+		}
+		um[labelKey(s.Labels)] = m
+	}
+	extra, n := false, 0
+	for _, s := range sv.Series {
+		m := um[labelKey(s.Labels)]
+		for _, p := range s.Pts {
+			if v, ok := m[p.T]; ok {
+				if !feq(v, p.V) {
+					return false
+				}
+				n++
+			} else if p.V == 0 {
+				extra = true
+			} else {
+				return false
+			}
+		}
+	}
+	total := 0
+	for _, m := range um {
+		total += len(m)
+	}
+	return extra && n == total
 }
 
 func hasMatrixSelector(expr string) bool {
